@@ -1023,10 +1023,19 @@ func (e *Env) setup() {
 	default:
 		panic("bad transport " + sc.Transport)
 	}
-	base := context.Background()
+	var base context.Context = context.Background()
+	if strings.Contains(sc.Opts, "fardl") && !e.native {
+		// the caller's context also carries a deadline far beyond anything that happens in the scenario
+		// (its timer never fires): a call that is cancelled explicitly although it has a deadline
+		base = farDeadlineCtx{base}
+	}
 	switch sc.Cancel {
 	case "":
 		e.ctx, e.cancel = mc.WithCancel(base)
+		if strings.Contains(sc.Opts, "bgctx") {
+			// a context that can never be cancelled (context.Background() itself: Done() == nil)
+			e.ctx, e.cancel = context.Background(), func() {}
+		}
 	case "cancel":
 		e.ctx, e.cancel = mc.WithCancel(base)
 	case "deadline":
@@ -1052,6 +1061,9 @@ func (e *Env) body() {
 			e.rec.Cancelled = true
 			e.rec.ev("canceller", "cancel", "")
 		})
+	}
+	if strings.Contains(e.sc.Opts, "fardl") && !e.native {
+		mc.SetTimers(false) // the far deadline never passes within the scenario: neither does the server's copy of it
 	}
 	if strings.Contains(e.sc.Opts, "timers") && !e.native {
 		mc.SetTimers(true) // deadline timers of individual calls may fire in this scenario
